@@ -1,9 +1,12 @@
 #!/bin/bash
-# usage: runall.sh [quick|thorough] [seed]  — runs every registered check, prints one line each
+# usage: runall.sh [quick|thorough] [seed]  — runs every registered check by its MANIFEST command, prints one line each
 tier=${1:-quick}; seed=${2:-1}
 cd "$(dirname "$0")/.." || exit 2
-for id in $(python3 -c "import json;print(' '.join(c['property_id'] for c in json.load(open('MANIFEST.json'))['checks']))"); do
-  out=$(VERIF_SEED=$seed ./check $id $tier 2>&1); rc=$?
-  echo "$id rc=$rc $(echo "$out" | tail -1 | cut -c1-160)"
-  echo "$out" | grep -E '^(VIOLATION|KNOWN-FINDING|harness:)' | head -5
+python3 -c "
+import json
+for c in json.load(open('MANIFEST.json'))['checks']: print(c['property_id'] + '\t' + c['${tier}_cmd'])" | while IFS=$'\t' read -r id cmd; do
+  s=$(date +%s)
+  out=$(VERIF_SEED=$seed bash -c "$cmd" 2>&1); rc=$?
+  echo "$id rc=$rc $(( $(date +%s) - s ))s $(echo "$out" | grep -E "^$id (quick|thorough) seed=" | tail -1 | cut -c1-160)"
+  echo "$out" | grep -E '^(VIOLATION|KNOWN-FINDING|harness:|C05 fuzz|run_fuzz:|c05_fuzz:)' | cut -c1-220 | head -16
 done
